@@ -626,6 +626,10 @@ func (o *owner) siteOK1(c *ssa.Call) *ownRes {
 func hintOutput(v ssa.Value) (ssa.Value, int64, bool) {
 	// through NewVariable(x).Limb wrappers: Field / FieldAddr of a struct built from the value
 	v = unwrapLimb(v)
+	// through a witness struct returned by a helper: w := p.mulAddWitness(…); w.remainder.Limb
+	if src, ok := traceField(stripIface(v), nil, 0); ok {
+		v = unwrapLimb(src)
+	}
 	u, ok := v.(*ssa.UnOp)
 	if !ok || u.Op != token.MUL {
 		return nil, 0, false
@@ -647,6 +651,105 @@ func hintOutput(v ssa.Value) (ssa.Value, int64, bool) {
 		return nil, 0, false
 	}
 	return call, i, true
+}
+
+// traceField resolves a scalar read out of (nested) struct values back to the value that was put there: loads of
+// FieldAddr chains on a local that is stored once, Field chains on values, struct literals, NewVariable(x), and
+// module functions with a single return (followed into the callee). path is the list of field indices still to be
+// selected from v (outermost first).
+func traceField(v ssa.Value, path []int, depth int) (ssa.Value, bool) {
+	if depth > 12 {
+		return nil, false
+	}
+	v = stripIface(v)
+	switch x := v.(type) {
+	case *ssa.Field:
+		return traceField(x.X, append([]int{x.Field}, path...), depth+1)
+	case *ssa.UnOp:
+		if x.Op != token.MUL {
+			return nil, false
+		}
+		// collect the FieldAddr chain down to the base pointer
+		var chain []int
+		base := x.X
+		for {
+			fa, ok := base.(*ssa.FieldAddr)
+			if !ok {
+				break
+			}
+			chain = append([]int{fa.Field}, chain...)
+			base = fa.X
+		}
+		al, ok := base.(*ssa.Alloc)
+		if !ok || al.Referrers() == nil {
+			return nil, false
+		}
+		full := append(append([]int{}, chain...), path...)
+		if len(full) == 0 {
+			return nil, false
+		}
+		// the local is written once as a whole, or field by field (a composite literal)
+		var whole ssa.Value
+		nWhole := 0
+		for _, r := range *al.Referrers() {
+			if st, ok := r.(*ssa.Store); ok && st.Addr == ssa.Value(al) {
+				whole = st.Val
+				nWhole++
+			}
+		}
+		if nWhole == 1 {
+			return traceField(whole, full, depth+1)
+		}
+		if nWhole > 1 {
+			return nil, false
+		}
+		var src ssa.Value
+		n := 0
+		for _, r := range *al.Referrers() {
+			fa, ok := r.(*ssa.FieldAddr)
+			if !ok || fa.Field != full[0] || fa.Referrers() == nil {
+				continue
+			}
+			for _, r2 := range *fa.Referrers() {
+				if st, ok := r2.(*ssa.Store); ok && st.Addr == ssa.Value(fa) {
+					src = st.Val
+					n++
+				}
+			}
+		}
+		if n != 1 {
+			return nil, false
+		}
+		if len(full) == 1 {
+			return src, true
+		}
+		return traceField(src, full[1:], depth+1)
+	case *ssa.Call:
+		if len(path) == 0 {
+			return nil, false
+		}
+		g := x.Call.StaticCallee()
+		if g == nil || g.Blocks == nil {
+			return nil, false
+		}
+		if g.Name() == "NewVariable" && len(x.Call.Args) == 1 && len(path) == 1 && path[0] == 0 {
+			return x.Call.Args[0], true
+		}
+		var ret *ssa.Return
+		for _, b := range g.Blocks {
+			if r, ok := b.Instrs[len(b.Instrs)-1].(*ssa.Return); ok {
+				if ret != nil {
+					return nil, false
+				}
+				ret = r
+			}
+		}
+		if ret == nil || len(ret.Results) != 1 {
+			return nil, false
+		}
+		return traceField(ret.Results[0], path, depth+1)
+	}
+	return nil, false
 }
 
 // unwrapLimb looks through gl.NewVariable(x).Limb (a static call returning a one-field struct, then Field 0)
